@@ -5,12 +5,11 @@ From TL Require Import Lib.Base Lib.GenTypes Model.SrpTypes Gen.SrpGen Model.Srp
 
 Definition with_flag (i : nat) (q : squirks) : squirks :=
   let off (j : nat) (b : bool) := if i =? j then false else b in
-  Build_squirks (off 0 (q_py_hash_in_string q)) (off 1 (q_ts_loc_raw_span q)) (off 2 (q_ts_nonpublic_counted q))
-                (off 3 (q_ts_accessor_counted q)) (off 4 (q_ts_abstract_skipped q)) (off 5 (q_rs_trait_first_ident q))
-                (off 6 (q_rs_generic_impl_lost q)) (off 7 (q_rs_name_collision q)) (off 8 (q_rs_block_comment_counted q)).
+  Build_squirks (off 0 (q_py_hash_in_string q)) (off 1 (q_ts_nonpublic_counted q)) (off 2 (q_ts_accessor_counted q))
+                (off 3 (q_ts_block_comment_counted q)) (off 4 (q_rs_name_collision q)) (off 5 (q_rs_block_comment_counted q)).
 
 (* candidates: the claimed vector, the claimed vector with one flag switched off, the ideal *)
-Definition candidates (q : squirks) : list squirks := q :: map (fun i => with_flag i q) (seq 0 9) ++ [ideal].
+Definition candidates (q : squirks) : list squirks := q :: map (fun i => with_flag i q) (seq 0 6) ++ [ideal].
 
 Definition same (a b : list rep) : bool := ms_eqb rep_eqb a b.
 
@@ -30,14 +29,3 @@ Definition S' := Build_rstruct.
 Definition I := Build_rimpl.
 Definition F := Build_sfile.
 
-(* diagnostics: per class / struct (spec methods, spec loc, model methods, model loc) *)
-Definition metrics (q : squirks) (f : sfile) : list (list nat) :=
-  match f_lang f with
-  | Py => map (fun c => [c_line c; spec_methods (c_members c); spec_loc (f_lines f) (c_line c) (c_len c); py_count_methods c; py_count_loc q (f_lines f) c]) (f_classes f)
-  | Rs => map (fun s => let impls := filter (rs_assoc q s) (f_impls f) in
-                        [s_line s; list_sum (map (fun i => spec_methods (i_members i)) (filter (own_impl s) (f_impls f)));
-                         spec_loc (f_lines f) (s_line s) (s_len s) + list_sum (map (fun i => spec_loc (f_lines f) (i_line i) (i_len i)) (filter (own_impl s) (f_impls f)));
-                         list_sum (map (fun i => List.length (filter rs_countable (i_members i))) impls);
-                         rs_node_loc q (f_lines f) (s_line s) (s_len s) + list_sum (map (fun i => rs_node_loc q (f_lines f) (i_line i) (i_len i)) impls)]) (f_structs f)
-  | _ => map (fun c => [c_line c; spec_methods (c_members c); spec_loc (f_lines f) (c_line c) (c_len c); ts_count_methods q c; ts_count_loc q (f_lines f) c]) (f_classes f)
-  end.
